@@ -10,6 +10,7 @@ import (
 	"fmt"
 	"runtime"
 	"sync"
+	"sync/atomic"
 	"testing"
 	"time"
 
@@ -21,6 +22,7 @@ type c07Req struct {
 	NFilters int    `json:"nFilters,omitempty"`
 	Codes    []int  `json:"codes,omitempty"`    // SUBACK return codes the broker will send
 	WrongLen int    `json:"wrongLen,omitempty"` // != 0: the SUBACK carries len(filters)+WrongLen codes
+	Cancel   bool   `json:"cancel,omitempty"`   // the caller gives up (context cancelled) before any answer; the answers still arrive, late
 }
 
 type c07Item struct {
@@ -33,6 +35,8 @@ type c07Item struct {
 type c07Case struct {
 	Reqs   []c07Req  `json:"reqs"`
 	Script []c07Item `json:"script"`
+	// WrapIn > 0: the identifier counter is set so that it wraps (0xFFFF -> 1) within the first WrapIn allocations
+	WrapIn int `json:"wrapIn,omitempty"`
 }
 
 var c07AckTypes = []int{rtPubAck, rtPubRec, rtPubComp, rtSubAck, rtUnsubAck}
@@ -47,6 +51,7 @@ func c07Gen(rt *rapid.T) c07Case {
 				q.Codes = append(q.Codes, rapid.SampledFrom([]int{0, 1, 2, 0x80}).Draw(rt, "code"))
 			}
 		}
+		q.Cancel = rapid.IntRange(0, 5).Draw(rt, "cancel") == 0
 		return q
 	}), 1, 8).Draw(rt, "reqs")
 	// at most one wrong-length SUBACK, and it is answered last (the client then drops the link)
@@ -61,7 +66,15 @@ func c07Gen(rt *rapid.T) c07Case {
 			}
 		}
 	}
+	if rapid.IntRange(0, 3).Draw(rt, "wrap") == 0 {
+		c.WrapIn = rapid.IntRange(1, len(c.Reqs)).Draw(rt, "wrapIn")
+	}
 	n := len(c.Reqs)
+	for i := range c.Reqs {
+		if c.Reqs[i].WrongLen != 0 {
+			c.Reqs[i].Cancel = false
+		}
+	}
 	foreign := rapid.SliceOfN(rapid.Custom(func(rt *rapid.T) c07Item {
 		it := c07Item{Yields: rapid.IntRange(0, 3).Draw(rt, "y")}
 		switch rapid.IntRange(0, 3).Draw(rt, "fk") {
@@ -125,8 +138,13 @@ func c07Run(tb rapid.TB, c c07Case) {
 	r := newBaseRig()
 	defer r.shutdown()
 	r.connect(tb)
+	if c.WrapIn > 0 {
+		atomic.StoreUint32(&r.cli.idLast, uint32(0xFFFF-c.WrapIn+1))
+	}
 	n := len(c.Reqs)
 	st := make([]*c07State, n)
+	rctx := make([]context.Context, n)
+	rcancel := make([]context.CancelFunc, n)
 	var mu sync.Mutex
 	var wg sync.WaitGroup
 	ctx, cancel := context.WithCancel(context.Background())
@@ -138,6 +156,7 @@ func c07Run(tb rapid.TB, c c07Case) {
 
 	for i := range c.Reqs {
 		st[i] = &c07State{}
+		rctx[i], rcancel[i] = context.WithCancel(ctx)
 	}
 	for i, q := range c.Reqs {
 		i, q := i, q
@@ -149,17 +168,17 @@ func c07Run(tb rapid.TB, c c07Case) {
 			var subs []Subscription
 			switch q.Kind {
 			case "pub1":
-				err = r.cli.Publish(ctx, &Message{Topic: tag, QoS: QoS1, Payload: []byte("p")})
+				err = r.cli.Publish(rctx[i], &Message{Topic: tag, QoS: QoS1, Payload: []byte("p")})
 			case "pub2":
-				err = r.cli.Publish(ctx, &Message{Topic: tag, QoS: QoS2, Payload: []byte("p")})
+				err = r.cli.Publish(rctx[i], &Message{Topic: tag, QoS: QoS2, Payload: []byte("p")})
 			case "sub":
 				req := []Subscription{{Topic: tag, QoS: QoS2}}
 				for k := 1; k < q.NFilters; k++ {
 					req = append(req, Subscription{Topic: fmt.Sprintf("%s/f%d", tag, k), QoS: QoS(k % 3)})
 				}
-				subs, err = r.cli.Subscribe(ctx, req...)
+				subs, err = r.cli.Subscribe(rctx[i], req...)
 			case "unsub":
-				err = r.cli.Unsubscribe(ctx, tag)
+				err = r.cli.Unsubscribe(rctx[i], tag)
 			}
 			seq := r.log.add(1, "RET", nil, fmt.Sprintf("req %d (%s) err=%v", i, q.Kind, err))
 			mu.Lock()
@@ -187,6 +206,26 @@ func c07Run(tb rapid.TB, c c07Case) {
 		st[idx].id = pk.ID
 		used[pk.ID] = true
 	}
+	// some callers give up before any answer: their calls return the context's error; whatever the broker
+	// sends for them afterwards is late and must not disturb anybody
+	for i, q := range c.Reqs {
+		if !q.Cancel {
+			continue
+		}
+		rcancel[i]()
+		i := i
+		if !vWaitUntil(20*time.Second, func() bool { mu.Lock(); defer mu.Unlock(); return st[i].returned }) {
+			fail("request %d (%s) did not return after its context was cancelled", i, q.Kind)
+		}
+		mu.Lock()
+		if !errors.Is(st[i].err, context.Canceled) {
+			e := st[i].err
+			mu.Unlock()
+			fail("request %d (%s) was cancelled before any answer but returned %v", i, q.Kind, e)
+		}
+		st[i].finalSeq = -1 // cancelled: exempt from the return-after-own-ack rule
+		mu.Unlock()
+	}
 	unusedID := 1
 	nextUnused := func() int {
 		for used[unusedID] {
@@ -201,7 +240,7 @@ func c07Run(tb rapid.TB, c c07Case) {
 		mu.Lock()
 		defer mu.Unlock()
 		for i, s := range st {
-			if s.returned && s.finalSeq == 0 {
+			if s.returned && s.finalSeq == 0 && !c.Reqs[i].Cancel {
 				fail("request %d (%s, id %d) returned (err=%v) %s although its own acknowledgement was never sent", i, c.Reqs[i].Kind, s.id, s.err, after)
 			}
 		}
@@ -232,6 +271,9 @@ func c07Run(tb rapid.TB, c c07Case) {
 				s.recSeq = r.peer.send(refPacket{Type: rtPubRec, ID: s.id})
 				s.ackStage = 1
 				s.sentTypes = append(s.sentTypes, rtPubRec)
+				if q.Cancel {
+					break // nobody is waiting any more: no PUBREL will follow
+				}
 				// the client's PUBREL must follow; wait for it before PUBCOMP can be "its own"
 				if !r.peer.waitRecv(20*time.Second, func(pk refPacket) bool { return pk.Type == rtPubRel && pk.ID == s.id }, 1) {
 					fail("no PUBREL for id %d after PUBREC", s.id)
@@ -239,7 +281,9 @@ func c07Run(tb rapid.TB, c c07Case) {
 			case q.Kind == "pub2":
 				seq := r.peer.send(refPacket{Type: rtPubComp, ID: s.id})
 				mu.Lock()
-				s.finalSeq = seq
+				if !q.Cancel {
+					s.finalSeq = seq
+				}
 				mu.Unlock()
 				s.ackStage = 2
 				s.sentTypes = append(s.sentTypes, rtPubComp)
@@ -267,13 +311,17 @@ func c07Run(tb rapid.TB, c c07Case) {
 				}
 				seq := r.peer.send(refPacket{Type: rtSubAck, ID: s.id, Codes: codes})
 				mu.Lock()
-				s.finalSeq = seq
+				if !q.Cancel {
+					s.finalSeq = seq
+				}
 				mu.Unlock()
 				s.sentTypes = append(s.sentTypes, rtSubAck)
 			default:
 				seq := r.peer.send(refPacket{Type: finalType[q.Kind], ID: s.id})
 				mu.Lock()
-				s.finalSeq = seq
+				if !q.Cancel {
+					s.finalSeq = seq
+				}
 				mu.Unlock()
 				s.sentTypes = append(s.sentTypes, finalType[q.Kind])
 			}
@@ -331,6 +379,9 @@ func c07Run(tb rapid.TB, c c07Case) {
 	wrongLenSeen := false
 	for i, s := range st {
 		q := c.Reqs[i]
+		if q.Cancel {
+			continue
+		}
 		if s.finalSeq == 0 || s.retSeq < s.finalSeq {
 			fail("request %d (%s, id %d) returned at #%d, before its own acknowledgement was sent (#%d)", i, q.Kind, s.id, s.retSeq, s.finalSeq)
 		}
